@@ -1,15 +1,19 @@
 import AriesVerif.C11.Drv
 import AriesVerif.C15.Drv
 import AriesVerif.C19.Drv
-/-! Line protocol: stdin lines `<caseid>\t<input>`; stdout lines `<caseid>\t<model output>\t<spec output>`.
-    The property is chosen by `argv[0]` (e.g. `driver C11`). -/
+import AriesVerif.C09.Drv
+/-! Line protocol: stdin lines `<caseid>\t<input>[\t<impl output>]`;
+    stdout lines `<caseid>\t<model output>\t<spec output>\t<finding tags>`.
+    For properties whose Spec is an oracle over observed behaviour the spec column is the implementation's output
+    when the oracle accepts it and a verdict otherwise. The property is chosen by `argv[0]` (e.g. `driver C11`). -/
 
-def dispatch (prop : String) (input : String) : String × String :=
+def dispatch (prop : String) (input : String) (impl : String) : String × String × String :=
   match prop with
-  | "C11" => (C11.Drv.handle input, C11.Drv.handleSpec input)
-  | "C15" => (C15.Drv.handle input, C15.Drv.handleSpec input)
-  | "C19" => (C19.Drv.handle input, C19.Drv.handleSpec input)
-  | _ => ("unknown-property", "unknown-property")
+  | "C11" => (C11.Drv.handle input, C11.Drv.handleSpec input, "")
+  | "C15" => (C15.Drv.handle input, C15.Drv.handleSpec input, "")
+  | "C19" => (C19.Drv.handle input, C19.Drv.handleSpec input, "")
+  | "C09" => (C09.Drv.handle input, C09.Drv.oracle input impl, C09.Drv.tags input)
+  | _ => ("unknown-property", "unknown-property", "")
 
 partial def loop (prop : String) (hin hout : IO.FS.Stream) : IO Unit := do
   let line ← hin.getLine
@@ -17,12 +21,12 @@ partial def loop (prop : String) (hin hout : IO.FS.Stream) : IO Unit := do
   let line := Util.chomp line
   if line.isEmpty then loop prop hin hout else
   match line.splitOn "\t" with
-  | id :: rest =>
-    let input := "\t".intercalate rest
-    let (m, s) := dispatch prop input
-    hout.putStrLn s!"{id}\t{m}\t{s}"
+  | id :: input :: rest =>
+    let impl := "\t".intercalate rest
+    let (m, s, t) := dispatch prop input impl
+    hout.putStrLn s!"{id}\t{m}\t{s}\t{t}"
     loop prop hin hout
-  | [] => loop prop hin hout
+  | _ => loop prop hin hout
 
 def main (args : List String) : IO UInt32 := do
   match args with
